@@ -269,7 +269,7 @@ class Gen:
                 desc, kind = self.edit_desc(desc); steps.append(("frontend", desc, db, serial, cof))
             elif op == "restart":
                 if r.random() < 0.25: db = not db
-                if r.random() < 0.3: serial = not serial
+                if r.random() < 0.3 and not cof: serial = not serial      # (builds cancelled at the first failure stay serial)
                 steps.append(("frontend", copy.deepcopy(desc), db, serial, cof))
             elif op == "tree":
                 root, layout, filt = self.trees[0]
